@@ -40,4 +40,40 @@ CHECKS = {
   'note': 'Trusted: Coq kernel + vm_compute; minterm partition from the exhaustive sweep; Python translation; hooks.',
   'technique': 'Rocq proof of the transcribed minimizer (quotient theorem) + per-pair kernel-checked equivalence certificates',
  },
+ 'C06': {
+  'text': 'Coq theorems for every scanner satisfying sc_ok (proved for all valid compiled modes), every input and every reachable iterator state (RInv, preserved by every operation, so for every call history): the token next returns is the match of the CURRENT mode at its start position; afterwards the mode is the transition target of its type in that mode or unchanged; peek_n returns the same state; set_mode takes effect for the next token; a fresh iterator is in mode 0 whatever was set on the Scanner; has_transition equals association lookup on strictly sorted transitions. The Gallina transcription of FindMatchesImpl/ScannerImpl is tied to the code on every run by evaluating it with vm_compute on the dumped automata for generated mode graphs and histories, and the implementation is also compared with the same iterator driven by the automaton-independent specification.',
+  'design_ref': 'DESIGN.md section 7, C06',
+  'note': 'Trusted: Coq kernel + vm_compute; Python translators and differ; harness and read-only hooks; class/leaf predicates observed per case; regex_syntax parser outside the model. Assumes valid configurations (>= 1 mode, strictly sorted transitions to existing modes), distinct token types inside a mode (D8), token types < 2^32 (D9).',
+  'technique': 'Rocq proof (refinement of the iterator state machine, invariant by induction over histories) + differential correspondence',
+ },
+ 'C07': {
+  'text': 'Coq theorems for every valid configuration, input and history: every reported span is non-empty, inside the input, on character boundaries, ordered; at most one token per remaining character; None is sticky; no history of valid operations panics (all Rust panic sites of the transcribed code are explicit Panic outcomes of the model: slice on non-boundary, index out of range, debug_assert!, unwrap). Tied to the code by the differential correspondence under catch_unwind in a build with debug assertions and overflow checks.',
+  'design_ref': 'DESIGN.md section 7, C07',
+  'note': 'Trusted: Coq kernel + vm_compute; Python translators and differ; harness and read-only hooks; class/leaf predicates observed per case; regex_syntax parser outside the model. Assumes valid configurations (>= 1 mode, strictly sorted transitions to existing modes), distinct token types inside a mode (D8), token types < 2^32 (D9).',
+  'technique': 'Rocq proof (invariant + totality by induction over histories) + differential correspondence under catch_unwind',
+ },
+ 'C10': {
+  'text': 'Coq theorems: set_offset(o) on a boundary/beyond puts the cursor at min(o,len) keeping the mode; the tokens afterwards are the abstract scan of the suffix from there in the current mode and do not depend on the earlier history (two arbitrary reachable states with the same input and mode agree after the reset); advance_to(p) with p a boundary beyond the cursor lands exactly on p (the ends of peeked matches are such boundaries), and is a no-op when p is not beyond the cursor. Tied to the code by the differential correspondence on histories mixing resets, peeks, advance_to(end of peeked match) and mode changes.',
+  'design_ref': 'DESIGN.md section 7, C10',
+  'note': 'Trusted: Coq kernel + vm_compute; Python translators and differ; harness and read-only hooks; class/leaf predicates observed per case; regex_syntax parser outside the model. Assumes valid configurations (>= 1 mode, strictly sorted transitions to existing modes), distinct token types inside a mode (D8), token types < 2^32 (D9).',
+  'technique': 'Rocq proof (refinement to an abstract scan over the suffix) + differential correspondence',
+ },
+ 'C11': {
+  'text': 'Coq theorems: peek_n(n) equals n iterated next calls cut after the first token with a transition in the current mode (target reported, not entered) or at the end of input; the outcome classification; totality; the state after peek_n is the state before, so no later call is affected (the Rust scratch vectors are cleared at entry of find_from and are not model state). Tied by differential correspondence with peek_n at every point of generated histories.',
+  'design_ref': 'DESIGN.md section 7, C11',
+  'note': 'Trusted: Coq kernel + vm_compute; Python translators and differ; harness and read-only hooks; class/leaf predicates observed per case; regex_syntax parser outside the model. Assumes valid configurations (>= 1 mode, strictly sorted transitions to existing modes), distinct token types inside a mode (D8), token types < 2^32 (D9).',
+  'technique': 'Rocq proof (peek loop = iterated next, by induction on n) + differential correspondence',
+ },
+ 'C12': {
+  'text': 'PARTIAL, stated: Coq theorem C12_isolation (in any interleaving of operations on any number of iterators the outputs of iterator i are those of its own operations run alone; panicking iterators included) plus independence of the past after a reset and of the Scanner mode for fresh iterators. In the functional model iterators share nothing by construction; what Rust adds (a clone of the ScannerImpl per find_iter, Arc-shared immutable predicate, cache-shared compilation) is VALIDATED by the correspondence: generated worlds of 2-3 interleaved iterators, scanners through the cache, set_mode on the Scanner, dropped iterators; each iterator is compared with the model run of its own projection.',
+  'design_ref': 'DESIGN.md section 7, C12',
+  'note': 'Trusted: Coq kernel + vm_compute; Python translators and differ; harness and read-only hooks; class/leaf predicates observed per case; regex_syntax parser outside the model. Assumes valid configurations (>= 1 mode, strictly sorted transitions to existing modes), distinct token types inside a mode (D8), token types < 2^32 (D9).',
+  'technique': 'Rocq proof of isolation in the model + differential correspondence on interleaved worlds (aliasing guarantees observed)',
+ },
+ 'C08': {
+  'text': 'Coq theorem C08_eval_is_set_algebra: for every class AST and every character the Gallina transcription of match_function.rs (negation flag threading included) equals the textbook set algebra over its items; literal, dot, inclusive ranges, negation-as-complement, operators; C08_eval_congr justifies evaluating one representative per block. Tied to the code exhaustively in the character domain: for every generated or corpus class the implementation is observed on ALL 1,112,064 scalar values, partitioned into blocks by (named-item membership, literal/range endpoints), checked constant per block, and compared with the Coq evaluation at one representative per block; named items are observed used alone; the ASCII claims for \\d \\s \\w are enumerated.',
+  'design_ref': 'DESIGN.md section 7, C08',
+  'note': 'Trusted: Coq kernel + vm_compute; Python partition/translation; harness; named sets (Unicode tables) are observed oracles, not verified; regex_syntax parser outside the model.',
+  'technique': 'Rocq proof (structural induction over the class AST) + exhaustive per-class sweep of all scalar values',
+ },
 }
